@@ -14,6 +14,7 @@ import (
 	"sync"
 	"sync/atomic"
 	"testing"
+	"time"
 	"unicode"
 
 	"pgregory.net/rapid"
@@ -384,8 +385,19 @@ func RunScenario(t *testing.T, rec *Recorder, sc *Scenario) {
 			prevSeed, prevFile = lastRepr(tb)
 		case "makecheck":
 			var failed, skipped bool
+			r.mu.Lock()
+			r.genInvs, r.genNs = 0, 0
+			r.mu.Unlock()
 			t.Run(name, func(st *testing.T) {
 				defer func() { failed, skipped = st.Failed(), st.Skipped() }()
+				defer func() {
+					// how much time was left when Check gave up / finished, against what its test cases cost
+					d, has := st.Deadline()
+					r.mu.Lock()
+					n, ns := r.genInvs, r.genNs
+					r.mu.Unlock()
+					rec.Emit("timing", F{"run": i + 1, "hasdeadline": has, "remain_ms": int(time.Until(d) / time.Millisecond), "invs": n, "total_ms": int(ns / int64(time.Millisecond))})
+				}()
 				rapid.MakeCheck(prop)(st)
 			})
 			rec.Emit("run.end", F{"run": i + 1, "how": "subtest", "panic": "", "failed": failed, "failnow": failed, "skipped": skipped})
